@@ -7,7 +7,11 @@
    (job 441 / "15" and job 4411 / "5" both give 44115: two sequences of two files were merged into one slice)
    and is falsy for job 0 / "0" (that sequence was never summarized).  Found by this check (F8), fixed in
    /repo; the key is now the pair (job, digit string), so no injectivity hypothesis is left.  The seeded
-   patch seeded/revert_fix_C20 re-introduces it; corpus/C20/{d02,d03,e01,e02}*.json are the witnesses. *)
+   patch seeded/revert_fix_C20 re-introduces it; corpus/C20/{d02,d03,e01,e02}*.json are the witnesses.
+   Until /repo commit cff7329 only args.Peer of a part was collected: the peers a part LISTS in args.Peers (the
+   BcList part of a multicast carries nothing else) were missing from the merged slice.  Found by this check,
+   fixed in /repo; (2) now speaks about Peer and Peers of every part, without a restriction on the input's Peers.
+   seeded/revert_fix_C20d re-introduces it; corpus/C20/d10*, d13*, d14* are witnesses. *)
 From Coq Require Import List ZArith QArith String Sorted.
 Import ListNotations.
 From AiuModel Require Import Base Pipeline CommSumm CommSumm_proofs JobIds JobIds_proofs.
@@ -26,20 +30,23 @@ Print Assumptions C20_summarize_spec.
 
 (* (2) the summary of a non-empty list of parts is their hull and the union of their peers: the slice
    emitted for the sequence starts at the earliest start, ends (ts + dur) at the latest end, and lists
-   exactly the peers of the parts, each once (strictly ascending = a set). *)
+   exactly the peers of the parts - what a part names in args.Peer and every (non-blank) entry of what it
+   lists in args.Peers, for ALL parts - each once (strictly ascending = a set). *)
 Theorem C20_hull :
   forall (ps : list ev) (d : seqd) (e : ev), summary_of ps = Some d ->
     let m := merged e d in
     (forall p, In p ps -> (e_ts m <= e_ts p)%Q) /\ (exists p, In p ps /\ e_ts m = e_ts p) /\
     (forall p, In p ps -> (e_ts p + e_dur p <= q_end d)%Q) /\ (exists p, In p ps /\ q_end d = (e_ts p + e_dur p)%Q) /\
     e_dur m = (q_end d - e_ts m)%Q /\
-    (exists l, e_peers m = Some l /\ Sorted Z.lt l /\
-               forall z, In z l <-> exists p, In p ps /\ e_peer p = PInt z) /\
+    (exists l, e_peers m = Some (map PInt l) /\ Sorted Z.lt l /\
+               forall z, In z l <-> exists p, In p ps /\
+                 (e_peer p = PInt z \/ exists pl, e_peers p = Some pl /\ In (PInt z) pl)) /\
     e_uid m = e_uid e /\ e_job m = e_job e /\ e_x m = e_x e.
 Proof.
   intros ps d e H m. destruct (hull_start ps d H) as [S1 S2]. destruct (hull_end ps d H) as [E1 E2].
   destruct (hull_peers ps d H) as [P1 P2]. subst m. cbn [merged e_ts e_dur e_peers e_uid e_job e_x].
-  repeat split; try assumption. exists (q_peers d). repeat split; try assumption; apply P2.
+  repeat split; try assumption. exists (q_peers d). split; [reflexivity|]. split; [exact P1|].
+  intros z. rewrite P2. split; intros (p & Hp & N); exists p; (split; [exact Hp | now apply names_iff]).
 Qed.
 Print Assumptions C20_hull.
 
@@ -100,7 +107,8 @@ Theorem C20_two_phase :
 Proof. exact two_phase. Qed.
 Print Assumptions C20_two_phase.
 
-(* (7) outside the guard of (1): some part of a sequence carries a Peer that int() rejects -> ValueError. *)
+(* (7) outside the guard of (1): some part of a sequence carries a Peer, or an entry in its Peers, that int()
+   rejects -> ValueError. *)
 Theorem C20_error_branch :
   forall es : list ev, forallb peer_ok es = false -> summarize es = Err "ValueError".
 Proof. exact error_branch. Qed.
@@ -110,7 +118,10 @@ Print Assumptions C20_error_branch.
 Definition x (uid : Z) (name : string) (job : Z) (ts dur : Z) (p : peer) : ev :=
   mkev true name job (inject_Z ts) (inject_Z dur) p uid None.
 Definition mg (uid : Z) (name : string) (job : Z) (ts dur : Z) (p : peer) (l : list Z) : ev :=
-  mkev true name job (inject_Z ts) (inject_Z dur) p uid (Some l).
+  mkev true name job (inject_Z ts) (inject_Z dur) p uid (Some (map PInt l)).
+(* a part with an args.Peers *)
+Definition xl (uid : Z) (name : string) (job : Z) (ts dur : Z) (p : peer) (pl : list peer) : ev :=
+  mkev true name job (inject_Z ts) (inject_Z dur) p uid (Some pl).
 (* two interleaved sequences of one job, the same number in a second job, a slice without number, a host
    slice; the old key of (441,"15") and (4411,"5") collides *)
 Definition ex_stream : list ev :=
@@ -134,7 +145,9 @@ Example C20_nonvacuous :
       mg 6 "SenRdma_5 " 4411 102 7 (PInt 3) [0; 3];
       x 7 "SenRdma nonum" 441 30 2 (PInt 1);
       mg 8 "SenRdma" 441 1 8 (PInt 1) [1; 2] ] /\
-  forallb peer_ok [x 1 "SenRdma_1" 0 0 1 PBad] = false.
+  forallb peer_ok [x 1 "SenRdma_1" 0 0 1 PBad] = false /\
+  forallb peer_ok [xl 1 "SenRdma_1" 0 0 1 (PInt 1) [PInt 2; PBad]] = false /\
+  forallb peer_ok [xl 1 "Set BCList" 0 0 1 PBad [PBad]] = true.
 Proof.
   split; [reflexivity|]. split.
   - unfold uids. cbn. repeat constructor; cbn; intuition discriminate.
@@ -150,6 +163,16 @@ Proof. vm_compute. reflexivity. Qed.
 Example C20_job0_seq0 :
   summarize_val [x 1 "SenRdma_0 a" 0 2 3 (PInt 1); x 2 "SenRdma_00 a" 0 3 1 PNone; x 3 "SenRdma_0 b" 0 6 3 (PInt 2)] =
   VL [ev_val (mg 2 "SenRdma_00 a" 0 3 1 PNone []); ev_val (mg 3 "SenRdma_0 " 0 2 7 (PInt 2) [1; 2])].
+Proof. vm_compute. reflexivity. Qed.
+
+(* a multicast: the BcList part carries only the list of peers (with a blank entry), a send part names one more
+   peer, a third part lists a peer again; a slice that is not a part keeps its own Peers *)
+Example C20_multicast :
+  summarize_val [xl 1 "SenRdma_7 BcList" 3 2 3 PNone [PInt 5; PNone; PInt 1];
+                 xl 2 "Set BCList" 3 3 1 PNone [PInt 9; PInt 8];
+                 x 3 "SenRdma_7 send" 3 6 3 (PInt 2);
+                 xl 4 "SenRdma_7 x" 3 7 1 (PInt 2) [PInt 5]] =
+  VL [ev_val (xl 2 "Set BCList" 3 3 1 PNone [PInt 8; PInt 9]); ev_val (mg 4 "SenRdma_7 " 3 2 7 (PInt 2) [1; 2; 5])].
 Proof. vm_compute. reflexivity. Qed.
 
 (* three inputs, the 2nd collides with the 1st, the 3rd is the 1st path again; the top-level id is 7 *)
